@@ -3,6 +3,7 @@
 # Isolated lane: repo copy /scratch/mut/repo (git worktree of /repo), harness copy /scratch/mut/harness,
 # target /scratch/mut/target, verif root /scratch/mut/root (evidence/replays go there, never to /verif).
 set -u
+exec 9>/scratch/mut/.lock; flock 9   # one lane job at a time
 PATCH="$1"; ID="$2"; TIER="${3:-quick}"
 L=/scratch/mut
 bin="$(echo "$ID" | tr 'A-Z' 'a-z')"
